@@ -124,10 +124,48 @@ class C11(Check):
     per_case_timeout = 10
     technique = ('machine-checked proof (Coq 8.16) about an executable model of the pthread primitives and of libnstd\'s wrappers '
                  '+ deterministic-scheduler correspondence (real library code on virtual primitives, same move list as the model)')
-    level_text = ''
-    level_note = ''
-    rule = ''
-    assumptions = []
+    level_text = ('Theorems in Coq (19, closed under the global context) about every state reachable by ANY list of scheduler moves '
+                  '(run a thread\'s pending primitive call, spurious wake-up, timeout, clock advance, rotation of a condition queue) '
+                  'from any scripts of library calls, any number of threads, any initial signal state and semaphore value: Mutex history '
+                  'exclusive and re-entrant, tryLock never blocked and successful iff free or own; Semaphore count conserved and no '
+                  'waiter disabled while the count is positive; Signal wait true only if set since the last reset, a blocked waiter with '
+                  'the flag up implies an enabled pending unlock/broadcast of set(), the broadcast leaves nobody blocked; Monitor '
+                  'successful waits + flag <= sets, a set() that found a blocked waiter leaves an enabled signaller or a woken waiter '
+                  'that consumes the flag and returns true; timed waits return false only at/after start+timeout (deadline arithmetic '
+                  'exact and normalised); join returns the value the thread function returned. The model is tied to the code by running '
+                  'the real Signal.cpp/Monitor.cpp/Mutex.cpp/Semaphore.cpp/Thread.cpp (ASan/UBSan build of the working tree) on virtual '
+                  'pthread primitives under a deterministic baton-passing scheduler (-Wl,--wrap=...; clock_gettime interposed) with the '
+                  'same move lists as the extracted model, comparing per move: returned values, pending primitive call with the '
+                  'absolute deadline the code computed, blocked/enabled status of every thread, the signaled flags read from the '
+                  'objects\' memory, mutex owners/counts, condition queues, semaphore value, occupancy counter.')
+    level_note = ('PARTIAL in this sense: the OS primitives are MODELLED. coq/Sync/Sched.v (pthread mutex plain/recursive, condition '
+                  'variable with spurious wake-ups and timeouts as scheduler moves, POSIX semaphore with EINTR, create/join, scripted '
+                  'CLOCK_REALTIME) and its hand transcription harness/sync_sched.cpp are trusted; the real glibc primitives and the real '
+                  'kernel scheduler are never exercised by this check (no real-thread soak was built). For Mutex, Semaphore and Thread '
+                  'the library adds no logic beyond the recursive attribute (read from the real pthread_mutex_t by the harness), the '
+                  'EINTR retry loop and the stored handle, so their theorems are theorems about the modelled primitive as used by the '
+                  'wrapper. Granularity: one move = one primitive call plus the thread-local code up to the next call; the only shared '
+                  'plain variables (the two signaled flags) are touched only in the move that acquired the guarding mutex, so finer '
+                  'interleavings add no behaviours under sequential consistency (argued in SyncModel.v, not proved). One object of each '
+                  'class per scenario; the ENOSYS polling fallback of Semaphore::wait(timeout) and the Windows paths are not modelled. '
+                  '"No waiter stays blocked" is proved as absence of stuck states (a named thread has an enabled step that ends the '
+                  'configuration), not as termination under a fairness assumption; for Monitor the woken waiter additionally needs the '
+                  'monitor lock, which a caller may hold forever. Judge: S/M events are flag transitions observed in memory, so the '
+                  'history oracle on the implementation checks waits <= effective (false->true) sets, which is stronger than the theorem '
+                  'monitor_waits_le_sets; validated by correspondence only: handle bookkeeping of Thread::start/join on repeated '
+                  'start/join (modelled, compared, no theorem).')
+    rule = ('case = scenario (2-4 threads, one script of library calls per thread, mostly one primitive family) + schedule (list of '
+            'moves run/spur/tmo/clock/rot, then a deterministic drain). Streams: enum = every schedule (depth-first, bounded number '
+            'of spurious wake-ups/timeouts) of small 2-3 thread scenarios per primitive; templates = handshake templates x guided '
+            'random walks (moves chosen among enabled threads, spurious wake-ups of blocked waiters, clock to deadline-1 / deadline + '
+            'timeout, queue rotations, no-op moves); random = random scripts x random walks; deadline = abstime probes on carry '
+            'boundaries. Clock bases put the nanosecond field next to a carry. A scenario case is non-trivial when at least two '
+            'threads returned from a library call and some thread was blocked (mutex, condition, semaphore or join) at some move; '
+            'a deadline case when the nanosecond field carries or the timeout has a sub-second part; distinct = distinct op text.')
+    assumptions = ['initial semaphore value >= 0 (uint in the code)',
+                   'OS primitives behave as coq/Sync/Sched.v says (POSIX semantics incl. spurious wake-ups, ETIMEDOUT only at/after the absolute deadline, EINVAL for tv_nsec outside [0,1e9), glibc order in sem_timedwait); harness/sync_sched.cpp transcribes it',
+                   'sequential consistency at the granularity of primitive calls (flags only accessed under the internal mutex)',
+                   'time_t/long arithmetic of the deadline does not overflow: 0 <= ns + (t rem 1000)*10^6 < 2*10^9 is proved; tv_sec + t/1000 is assumed to fit 64 bits']
 
     # ---- generators ----------------------------------------------------------------------------------
     def expand(self, heads, tag):
@@ -180,7 +218,7 @@ class C11(Check):
                 ((2, 0, 0, 1, [L, L]), None, (60, 0, 0)),
                 ((3, 0, 1, 1, [['semwait'], ['semwaitt=10'], ['semsignal']]), BASES[1], (60, 1, 1)),
             ]
-        maxleaves = 30000 if thorough else 1500
+        maxleaves = 6000 if thorough else 1500
         heads = [case_head(tpl, base) + ['enum %d %d %d %d' % (d, sp, tm, maxleaves)] for (tpl, base, (d, sp, tm)) in scopes]
         cases = self.expand(heads, 'enum')
         out.append(Stream('enum', cases, note='all schedules of %d small scenarios (depth-first, at most %d per scenario)' % (len(scopes), maxleaves)))
@@ -329,6 +367,11 @@ class C11(Check):
                     return 'a Signal waiter is still blocked while the signal is set and nothing else can run'
                 if int(st.get('sem', '0')) > 0 and any(re.match(r'R:sw0', t) for t in toks):
                     return 'a Semaphore waiter is blocked while the count is positive'
+                for k, t in enumerate(toks):
+                    if t.startswith('R:lock2:') and st.get('o2', '-').startswith('%dx' % k):
+                        return 'the owner of the Mutex is blocked in lock(): not re-entrant'
+                    if t.startswith('R:lock2:') and st.get('o2', '-') == '-':
+                        return 'a thread is blocked in Mutex::lock() while the mutex is free'
                 if st.get('mf') == '1' and not any(re.match(r'W\d+:cw1', t) for t in toks):
                     for k, t in enumerate(toks):
                         if t.startswith('C1:') and mark.get(k):
